@@ -38,6 +38,8 @@ class Gen:
         r = self.r
         out = []
         POOL = [x for x in globals()['POOL'] if x not in forbid]
+        if not POOL:        # every pool name is an unobservable switch argument here
+            return [('markc', self.const())]
         for _ in range(n):
             c = r.random()
             if c < 0.28:
